@@ -31,7 +31,7 @@ def run(ctx):
         nrec = sum(1 for _ in open(rp))
         if nrec == 0:
             continue
-        res = ctx.tlc("CssRoundTrip", "CssRoundTrip.cfg", workers=16, env={"TRACE_FILE": rp}, timeout=1500, heap_gb=12)
+        res = ctx.tlc_trace("CssRoundTrip", "CssRoundTrip.cfg", rp, workers=16, timeout=1500, heap_gb=12)
         if res.distinct != nrec:
             raise MachineryError("TLC validated %d of %d round-trip records" % (res.distinct, nrec))
         bad = ctx.tuples(res, "BAD")
